@@ -13,6 +13,10 @@ ppo.collect_trajectories + update_ppo, mrq_loss, model_based_encoder_loss) with
 table stubs for value functions / critics / encoders and compared exactly.
 Beyond the lattice: random float inputs, perturbing exactly the cells TLC lists
 as irrelevant (outputs must be bitwise equal) and relevant (outputs must move).
+The representation of the reward sequence (Python floats / ints, numpy integer
+scalars, integer / float arrays, mixed) is a TLC-chosen component of every
+rtg / nstep / gae vector (Returns.tla section 3a): the estimate is a function of
+the numbers, not of the type that carries them.
 
 spec/ReturnsRollout.tla: PPO rollouts of a SAME_STEP vector environment whose
 sub-environments follow TLC-chosen episode scripts (finish alone / together, by
@@ -78,9 +82,42 @@ QK = 64.0  # constant prediction of the stub critics in mrq_loss (target = QK - 
 U32 = Fraction(1, 2**24)  # unit round-off of float32
 
 
-def consts(kinds, shapes, K, exh, seed, quarter=False, emit=False, deps=False, exh_kinds=("rtg", "nstep", "gae")):
+def consts(kinds, shapes, K, exh, seed, quarter=False, emit=False, deps=False, exh_kinds=("rtg", "nstep", "gae"), reprs=()):
     return dict(EMIT=emit, DEPS=deps, Kinds=set(kinds), Shapes=set(shapes), K=K, ExhCells=exh, ExhKinds=set(exh_kinds),
-                Seed=int(seed) % 32768, Quarter=quarter)
+                Seed=int(seed) % 32768, Quarter=quarter, Reprs=set(reprs) | {"float"})
+
+
+# representations of the reward sequence (Returns.tla section 3a): TLC chooses the name, this is what the name means
+REPRS_QUICK = ("int", "npint64", "int64array", "int32array", "float32array", "mixed", "int32")
+REPRS_ALL = REPRS_QUICK + ("float64array", "npfloat64")
+_NP_DTYPE = {"int64array": np.int64, "int32array": np.int32, "float32array": np.float32, "float64array": np.float64}
+
+
+REPR_TEXT = {"int": "a list of Python ints", "npint64": "numpy int64 values", "int64array": "a numpy int64 array", "int32array": "a numpy int32 array",
+             "float32array": "a numpy float32 array", "float64array": "a numpy float64 array", "mixed": "a list of Python ints and floats",
+             "int32": "a jax int32 array", "npfloat64": "a numpy float64 array"}
+
+
+def rtg_rewards(ep, repr_, asint):
+    """one episode's rewards (floats from the lattice) in the representation TLC chose; asint: TLC's TypedInt row"""
+    if repr_ in _NP_DTYPE:
+        return np.asarray(ep, dtype=_NP_DTYPE[repr_])
+    if repr_ == "npint64":
+        return [np.int64(x) for x in ep]
+    return [int(x) if i else float(x) for x, i in zip(ep, asint)]  # "float", "int", "mixed"
+
+
+def arr_rewards(R, repr_):
+    """a reward matrix / vector for discounted_n_step_return / compute_gae in the representation TLC chose"""
+    import jax.numpy as jnp
+
+    if repr_ == "int32":
+        return jnp.asarray(np.asarray(R), dtype=jnp.int32)
+    if repr_ == "npint64":
+        return np.asarray(R).astype(np.int64)
+    if repr_ == "npfloat64":
+        return np.asarray(R).astype(np.float64)
+    return jnp.asarray(R, dtype=jnp.float32)
 
 
 # ----------------------------------------------------------------- conversions
@@ -182,13 +219,16 @@ def eval_rtg(par, data):
     from rl_blox.algorithm.reinforce import EpisodeDataset, discounted_reward_to_go
 
     g = par["g"]
-    per_ep = [np.asarray(discounted_reward_to_go([float(x) for x in ep], g)) for ep in data["R"]]
+    repr_ = par.get("repr", "float")
+    asint = data.get("asint") or [[False] * len(ep) for ep in data["R"]]
+    eps = [rtg_rewards(ep, repr_, ai) for ep, ai in zip(data["R"], asint)]
+    per_ep = [np.asarray(discounted_reward_to_go(ep, g)) for ep in eps]
     ds = EpisodeDataset()
     tag = 0
-    for ep in data["R"]:
+    for ep in eps:
         ds.start_episode()
-        for r in ep:
-            ds.add_sample(np.array([float(tag)]), 1, np.array([tag + 0.5]), float(r))
+        for r in ep:  # the elements as the container holds them (Python int / float, numpy scalar)
+            ds.add_sample(np.array([float(tag)]), 1, np.array([tag + 0.5]), r)
             tag += 1
     obs, act, nobs, ret, disc = ds.prepare_policy_gradient_dataset(gym.spaces.Discrete(2, start=1), g)
     return {"per_ep": per_ep, "obs": np.asarray(obs)[:, 0], "ret": np.asarray(ret), "disc": np.asarray(disc)}
@@ -198,7 +238,7 @@ def eval_nstep(par, data):
     import jax.numpy as jnp
     from rl_blox.blox.return_estimates import discounted_n_step_return
 
-    ret, disc = discounted_n_step_return(jnp.asarray(data["R"], dtype=jnp.float32), jnp.asarray(data["D"]), par["g"])
+    ret, disc = discounted_n_step_return(arr_rewards(data["R"], par.get("repr", "float")), jnp.asarray(data["D"]), par["g"])
     return {"ret": np.asarray(ret), "disc": np.asarray(disc)}
 
 
@@ -206,7 +246,7 @@ def eval_gae(par, data):
     import jax.numpy as jnp
     from rl_blox.blox.gae import compute_gae
 
-    out = compute_gae(jnp.asarray(data["R"][0], dtype=jnp.float32), jnp.asarray(data["V"][0], dtype=jnp.float32),
+    out = compute_gae(arr_rewards(data["R"][0], par.get("repr", "float")), jnp.asarray(data["V"][0], dtype=jnp.float32),
                       jnp.asarray(data["W"][0], dtype=jnp.float32), jnp.asarray(data["D"][0]), par["g"], par["l"])
     return {"adv": np.asarray(out.advantages), "ret": np.asarray(out.returns)}
 
@@ -429,8 +469,12 @@ def vec_inputs(rec):
     kind = rec["kind"]
     par = {k: qf(rec[k]) for k in ("g", "l", "rs", "trs", "wd", "wr", "wdn") if k in rec}
     data = {}
+    if "repr" in rec:
+        par["repr"] = rec["repr"]
     if kind == "rtg":
         data["R"] = [[qf(x) for x in ep] for ep in rec["R"]]
+        if "asint" in rec:
+            data["asint"] = rec["asint"]
     elif kind == "gae":
         data = {"R": fmat([rec["R"]]), "V": fmat([rec["V"]]), "W": fmat([rec["W"]]), "D": imat([rec["D"]])}
     else:
@@ -533,6 +577,15 @@ def check_vector(rec, corrupt=False):
         expect_exact(probs, "mrq_loss:critic_target", f"critic target (= {QK} - |td error|)", out["target"], want)
     elif kind == "enc":
         check_enc(rec, out, probs, corrupt)
+    if probs and not corrupt and rec.get("repr", "float") != "float":
+        # is it the representation of the rewards?  the same numbers handed over as floats
+        base = check_vector(dict(rec, repr="float", asint=[[False] * len(r) for r in rec["R"]] if kind == "rtg" else None))
+        if not base:
+            first = probs[0]
+            probs = Problems()
+            probs.add(f"{site}:estimate_depends_on_reward_type",
+                      f"rewards handed over as {REPR_TEXT.get(rec['repr'], rec['repr'])}: {first['what']}; the same numbers handed over as "
+                      f"{'Python floats' if kind == 'rtg' else 'a float32 array'} give the specified values (first deviating check: {first['key']})")
     return probs
 
 
@@ -1076,7 +1129,10 @@ def run(rep):
         "gamma/lambda in {0,1/2,1} (+1/4 in the thorough tier), EVERY termination pattern, data exhaustive over the 3-value lattices for "
         "B*H <= %d cells (%s; other operations 1 cell) and K=%d seeded dense fills otherwise; each completed vector is emitted once with the "
         "exact expected result and replayed into the real function; a vector is non-trivial when it has >= 2 cells and at least one "
-        "terminated step (rtg: >= 2 rewards)" % (gen["shapes"], gen["exh"], ",".join(gen["exh_kinds"]), gen["K"])
+        "terminated step (rtg: >= 2 rewards); the REPRESENTATION of the reward sequence is a component of the vector chosen by TLC (rtg: list of Python "
+        "floats / ints / numpy int64 scalars / mixed ints and floats, numpy int64 / int32 / float32 (/ float64) arrays, also as the elements given to "
+        "EpisodeDataset.add_sample; nstep, gae: jax float32 / int32, numpy int64 (/ float64) arrays) - every rtg / nstep / gae vector in every "
+        "admissible representation, same expected values" % (gen["shapes"], gen["exh"], ",".join(gen["exh_kinds"]), gen["K"])
         + "; rollouts: TLC chooses per sub-environment a cyclic episode script and the split into collection calls %s (N, T, lengths, "
         "episodes per script, block sizes), every class of vector step (per environment goes on / terminated / truncated, at a block end or "
         "not) is replayed at least once in EVERY set-up (train_ppo with / without a logger, collect_trajectories + update_ppo on the bare vector environment with a logger) plus a seeded sample rotating through the set-ups, %d runs in all; EpisodeDataset: every transition of the state graph "
@@ -1096,6 +1152,7 @@ def run(rep):
         (["gae"], [12], "DevNoCutIsGAE"),
         (["enc"], [22], "DevDoneBroadcastIsMasked"),
         (["ppoflat"], [21, 22], "Causal"),
+        (["rtg"], [12], "DevStoredAsRewardTypeIsRTG"),
     )
     pool = ThreadPoolExecutor(max_workers=20)
     # 1. laws (recurrence = closed form, lambda limits, cut reward-to-go, bootstrap ignored) on the larger lattice
@@ -1111,10 +1168,12 @@ def run(rep):
     # 4. generation: vectors + dependency structures
     f_gen = pool.submit(
         tlc.run, "Returns",
-        tlc.cfg_text(constants=consts(ALL_KINDS, gen["shapes"], gen["K"], gen["exh"], rep.seed, quarter=not quick, emit=True, deps=True, exh_kinds=gen["exh_kinds"])),
+        tlc.cfg_text(constants=consts(ALL_KINDS, gen["shapes"], gen["K"], gen["exh"], rep.seed, quarter=not quick, emit=True, deps=True, exh_kinds=gen["exh_kinds"],
+                            reprs=REPRS_QUICK if quick else REPRS_ALL)),
         workers=1, tag="c07gen", timeout=1500)
     # 3. canaries on the model: every named deviation must be refuted
-    f_dev = [pool.submit(tlc.run, "Returns", tlc.cfg_text(constants=consts(kinds, shapes, 2, 1, rep.seed), invariants=[inv]), workers=1, tag="c07dev")
+    # (the representation deviation needs every reward pair of a two-step episode: ExhCells = 2)
+    f_dev = [pool.submit(tlc.run, "Returns", tlc.cfg_text(constants=consts(kinds, shapes, 2, 2 if kinds == ["rtg"] else 1, rep.seed, reprs=("int",), exh_kinds=("rtg",)), invariants=[inv]), workers=1, tag="c07dev")
              for kinds, shapes, inv in DEVS]
     # 3b. rollouts of a vector environment (invariants + generation in one single-worker run: small models) and
     #     the deviations "only the last finished environment keeps its final observation" / "none does"
@@ -1224,6 +1283,8 @@ def run(rep):
             rep.sample({"operation": k, "vector": by_kind[k][len(by_kind[k]) * 2 // 3]})
     rep.traces = checked
     rep.extra["vectors_per_operation"] = {k: len(v) for k, v in by_kind.items()}
+    rep.extra["vectors_per_reward_representation"] = {k: {r: sum(1 for v in by_kind[k] if v.get("repr") == r) for r in sorted({v.get("repr") for v in by_kind[k]})}
+                                                      for k in ("rtg", "nstep", "gae")}
 
     # 7. perturbation tests on random floats with TLC's dependency sets
     rng = np.random.default_rng(rep.seed)
@@ -1395,6 +1456,7 @@ def run(rep):
         "A2C rollouts: the scripted vector environment has no auto-reset; the next value of a step is the value of the observation that step returned; truncation is no cut (as for PPO)",
         "MR.Q runs: windows are judged under the prefix reading (rows behind the first terminated step are ignored); the recorded critic batch is evaluated by the real mrq_loss with stub critics and reward scales 1 (exact), the routine's own reward scales are not dyadic; quick tier: the updates themselves are replaced by recorders",
         "EpisodeDataset: Prepare on a data set without samples has no specified result (the repository raises IndexError)",
+        "reward representations: integer-typed representations carry the integer-valued lattice rewards {-1, 0, 2} (Returns!ReprFits); bool rewards and the value / next-value arrays of GAE are not varied; the A2C / PPO / MR.Q paths receive the rewards their own collection code stores",
         "trusted: scripted vector environment, table stubs, recorders interposed on ppo.ppo_loss / ppo.compute_gae, TLC",
     ]
 
